@@ -19,24 +19,24 @@ import (
 )
 
 type Engine struct {
-	prog       *ssa.Program
-	pkgs       map[string]*ssa.Package
-	tpkgs      []*packages.Package
-	specs      *SpecDB
-	typeTags   map[string]int64
-	tagTypes   map[int64]types.Type
-	globalIDs  map[*ssa.Global]int64
-	funcIDs    map[*ssa.Function]int64
-	nameTables map[*ssa.Function]map[string][]ssa.Instruction
-	loopCache  map[*ssa.Function]map[*ssa.BasicBlock]*loopInfo
-	workdir    string
-	bindings   map[string]*FuncBinding
-	recording  map[string]map[string]string
-	fpCache    map[*ssa.Function]map[*ssa.Alloc]string
-	stableCache map[*ssa.Function]map[string]string
-	mode       string // "first" | "all"
+	prog           *ssa.Program
+	pkgs           map[string]*ssa.Package
+	tpkgs          []*packages.Package
+	specs          *SpecDB
+	typeTags       map[string]int64
+	tagTypes       map[int64]types.Type
+	globalIDs      map[*ssa.Global]int64
+	funcIDs        map[*ssa.Function]int64
+	nameTables     map[*ssa.Function]map[string][]ssa.Instruction
+	loopCache      map[*ssa.Function]map[*ssa.BasicBlock]*loopInfo
+	workdir        string
+	bindings       map[string]*FuncBinding
+	recording      map[string]map[string]string
+	fpCache        map[*ssa.Function]map[*ssa.Alloc]string
+	stableCache    map[*ssa.Function]map[string]string
+	mode           string            // "first" | "all"
 	contractSource map[string]string // pkg -> "repo" | "mirror"
-	verbose    bool
+	verbose        bool
 }
 
 const repoMod = "github.com/ipni/go-libipni"
@@ -309,36 +309,36 @@ func (r *OblResult) wait() {
 
 type OblResult struct {
 	done    chan struct{}
-	Name    string `json:"name"`
-	Kind    string `json:"kind"`
-	Func    string `json:"function"`
-	Pos     string `json:"pos,omitempty"`
-	Desc    string `json:"desc,omitempty"`
-	Verdict string `json:"verdict"` // discharged | failed | unknown
-	Solver  string `json:"solver,omitempty"`
-	Ms      int64  `json:"ms"`
-	Bytes   int    `json:"bytes"`
-	Paths   int    `json:"paths"`
+	Name    string            `json:"name"`
+	Kind    string            `json:"kind"`
+	Func    string            `json:"function"`
+	Pos     string            `json:"pos,omitempty"`
+	Desc    string            `json:"desc,omitempty"`
+	Verdict string            `json:"verdict"` // discharged | failed | unknown
+	Solver  string            `json:"solver,omitempty"`
+	Ms      int64             `json:"ms"`
+	Bytes   int               `json:"bytes"`
+	Paths   int               `json:"paths"`
 	Model   map[string]string `json:"model,omitempty"`
-	Raw     string `json:"solver_output,omitempty"`
-	Query   string `json:"-"`
-	All     []string `json:"all_solvers,omitempty"`
+	Raw     string            `json:"solver_output,omitempty"`
+	Query   string            `json:"-"`
+	All     []string          `json:"all_solvers,omitempty"`
 }
 
 type FuncReport struct {
-	Key       string
-	Pkg       string
-	Props     []string
-	Results   []*OblResult
-	Notes     []string
-	Paths     int
-	Returns   int
+	Key         string
+	Pkg         string
+	Props       []string
+	Results     []*OblResult
+	Notes       []string
+	Paths       int
+	Returns     int
 	Unsupported string
-	Vacuity   string // "" ok, else reason
+	Vacuity     string   // "" ok, else reason
 	NeverEvents []string // event names the contract mentions that no path produces (such clauses can only state absence)
-	Covers    int
-	Trusted   string
-	Ms        int64
+	Covers      int
+	Trusted     string
+	Ms          int64
 }
 
 func (e *Engine) newCtx(fn *ssa.Function, c *Contract) *Ctx {
